@@ -31,6 +31,9 @@ type VueContext struct {
 
 	// SlotScope contains slot content for the current component.
 	SlotScope *SlotScope
+
+	// slotDepth counts nested expansions of supplied slot content.
+	slotDepth int
 }
 
 // VueContextOptions holds configurable options for a new VueContext.
@@ -72,6 +75,7 @@ func (ctx VueContext) WithTemplate(filename string) VueContext {
 		seen:          ctx.seen,     // Share the v-once tracking map
 		Processors:    ctx.Processors,
 		SlotScope:     ctx.SlotScope, // Share the slot scope
+		slotDepth:     ctx.slotDepth,
 	}
 }
 
